@@ -17,11 +17,11 @@ C = dict(
         dict(module="WriterRepl", cfg="WriterRepl_MC.cfg", tiers=["thorough"], workers=8),
     ],
     plan_sources=[
-        dict(name="one", module="WriterRepl", cfg="WriterRepl_Plan1Q.cfg", tiers=["quick"], cap={"quick": 700}, workers=4),
+        dict(name="one", module="WriterRepl", cfg="WriterRepl_Plan1Q.cfg", tiers=["quick"], cap={"quick": 2000}, workers=4),
         dict(name="oneT", module="WriterRepl", cfg="WriterRepl_Plan1T.cfg", tiers=["thorough"], workers=8),
-        dict(name="par", module="WriterRepl", cfg="WriterRepl_PlanPar.cfg", cap={"quick": 250}, workers=4),
+        dict(name="par", module="WriterRepl", cfg="WriterRepl_PlanPar.cfg", cap={"quick": 600}, workers=4),
         dict(name="sim", module="WriterRepl", cfg="WriterRepl_PlanSim.cfg", simulate={"quick": 6, "thorough": 60}, depth=8,
-             cap={"quick": 120, "thorough": 4000}),
+             cap={"quick": 200, "thorough": 4000}),
     ],
     directed="plans/C07.jsonl",
     trace=("WriterRepl_Trace", "WriterRepl_Trace.cfg"),
